@@ -67,3 +67,37 @@ void h_SendStereoAudio(void)
     REACH(r == 0 && g_exp_frames == 3 && out_pos == 4, "tail of a request");
 }
 #endif
+
+#if defined(WITH_GENERATE) || defined(WITH_PLAY)
+unsigned g_gen_calls, g_send_calls, g_tick_calls; ssize_t g_sent_frames; struct OPN2_MIDIPlayer g_device; int g_send_fails;
+_Bool nondet_bool(void);
+/* TRUSTED model of memset for this group: the only memset of the function clears a prefix of the mix buffer; the model checks
+ * that the cleared range lies inside the buffer and then forgets the buffer's contents (the chips overwrite it anyway). */
+void *memset(void *s, int c, size_t n)
+{
+    __CPROVER_assert(s == (void *)g_play.m_outBuf && n <= sizeof(g_play.m_outBuf), "GEN memset stays inside the mix buffer");
+    __CPROVER_havoc_slice(g_play.m_outBuf, sizeof(g_play.m_outBuf));
+    return s;
+}
+#ifdef WITH_GENERATE
+void h_opn2_generateFormat(void)
+{
+    static OPN2_UInt8 l[8], r[8]; OPNMIDI_AudioFormat fmt; int n = nondet_int();
+    g_play.m_synth = &g_synth; g_send_fails = nondet_bool(); g_sent_frames = 0;
+    int got = opn2_generateFormat(nondet_bool() ? &g_device : NULL, n, l, r, &fmt);
+    REACH(got == 1000 && n == 1001, "odd request rounded down"); REACH(got == 0 && n < 0, "negative"); REACH(got == 0 && n > 10 && g_send_fails, "refused format");
+}
+#endif
+#ifdef WITH_PLAY
+int g_atend_seen;
+void h_opn2_playFormat(void)
+{
+    static OPN2_UInt8 l[8], r[8]; OPNMIDI_AudioFormat fmt; int n = nondet_int();
+    g_play.m_synth = &g_synth; g_send_fails = nondet_bool(); g_sent_frames = 0; g_atend_seen = 0;
+    int got = opn2_playFormat(nondet_bool() ? &g_device : NULL, n, l, r, &fmt);
+    REACH(got == 1000 && n == 1001, "odd request rounded down"); REACH(got == 0 && n < 0, "negative"); REACH(got == 0 && n > 10 && g_send_fails, "refused format");
+    REACH(got == 10 && n == 100 && g_atend_seen, "short at the end of the song");
+    if(0) { seq_positionAtEnd(); player_Tick(0.0, 0.0); }   /* keeps the replaced symbols in the binary when a change removes their calls */
+}
+#endif
+#endif
